@@ -21,10 +21,10 @@ for id in "$@"; do
   cp $demo $wt/$crate/tests/$base
   t=${base%.rs}
   timeout 900 cargo test -p $pkg $feat --test $t --offline -- --test-threads 1 > /tmp/cf/$id.demo_with 2>&1; with=$?
-  mv $wt/$crate/tests/$base /tmp/cf/$base.aside
+  mv $wt/$crate/tests/$base /tmp/cf/$id.$base.aside
   timeout 1500 cargo nextest run --workspace --no-fail-fast --test-threads 8 --offline > /tmp/cf/$id.suite 2>&1; suite=$?
   passed=$(grep -oE '[0-9]+ passed' /tmp/cf/$id.suite | tail -1)
-  git checkout -- . ; mv /tmp/cf/$base.aside $wt/$crate/tests/$base
+  git checkout -- . ; mv /tmp/cf/$id.$base.aside $wt/$crate/tests/$base
   timeout 900 cargo test -p $pkg $feat --test $t --offline -- --test-threads 1 > /tmp/cf/$id.demo_without 2>&1; without=$?
   echo "{\"id\":\"$id\",\"applies\":true,\"patch\":\"$(basename $patch)\",\"demo_rc_with_patch\":$with,\"suite_rc_with_patch\":$suite,\"suite_passed\":\"$passed\",\"demo_rc_without_patch\":$without,\"crate\":\"$crate\",\"features\":\"$feat\"}" > $out
   cd /; git -C /repo worktree remove --force $wt
